@@ -231,6 +231,11 @@ class WebSocketResponse(StreamResponse, Generic[_DecodeText]):
 
     def _pong_not_received(self) -> None:
         if self._req is not None and self._req.transport is not None:
+            if self._req.protocol._reading_paused:
+                # We are the ones not reading (flow control): the PONG may
+                # wait in the socket, no verdict until reading resumes.
+                self._reset_heartbeat()
+                return
             self._handle_ping_pong_exception(
                 asyncio.TimeoutError(
                     f"No PONG received after {self._pong_heartbeat} seconds"
